@@ -1986,7 +1986,7 @@ def time_families(sc, vh, fams, n, factor, reps):
 def c09(tier, sc):
     rep = Report("C09", tier, "exploration")
     vh = build_harness(sc)
-    tfile, _ = gen_tables(sc, vh)
+    tfile, jfile = gen_tables(sc, vh)
     d = stage_specs(sc, "c09", [tfile])
     big = tier == "thorough"
     S = vgen.b
@@ -2031,6 +2031,22 @@ def c09(tier, sc):
             fams.append({"api": "sqli", "pre": g["in"][:p0], "rep": g["in"][p0:q0], "tail": []})
             ncyc += 1
     rep.part("cycles", xss_inputs_with_cycles=len(cyc), sqli_inputs_with_cycles=len(scyc), cycles=ncyc)
+    # words of every token class of the current keyword table (the two shortest keys of each class) glued to every
+    # byte that can follow a word: the lexers look words up, split them at '.' and back-tick, merge phrases
+    bycls = {}
+    for e in json.load(open(jfile))["keywords"]:
+        k = bytes(e["key"]).decode("latin1")
+        if e["val"] != 70 and re.fullmatch(r"[A-Z_]+", k):
+            bycls.setdefault(e["val"], []).append(k.lower())
+    kw_units = []
+    for cls, ks in sorted(bycls.items()):
+        for k in sorted(ks, key=lambda x: (len(x), x))[:2]:
+            for dl in (".", "`", " ", "(", ",", ";", "'", "\"", "@", "[", "{", "/**/", "=", "-", "\\", ".1", ". "):
+                kw_units.append(k + dl)
+    for u in kw_units:
+        for pre0 in ("", "'", "1 "):
+            fams.append({"api": "sqli", "pre": S(pre0), "rep": S(u), "tail": []})
+    rep.part("keyword_units", classes=len(bycls), units=len(kw_units))
     r0 = vgen.rng("c09")
     pairs = [(a, b2) for a in sq_units for b2 in sq_units if a != b2]
     for a, b2 in (pairs if big else r0.sample(pairs, 500)):
